@@ -1,0 +1,99 @@
+//go:build verif
+
+package atomic
+
+import (
+	"sync/atomic"
+
+	"github.com/buildbarn/bb-remote-execution/pkg/verifsync"
+)
+
+// Types whose operations do not need to be controlled.
+type (
+	Pointer[T any] = atomic.Pointer[T]
+	Value          = atomic.Value
+)
+
+func before(m any) {
+	if h := verifsync.H; h != nil {
+		h.Before(m, verifsync.KindAtomic)
+	}
+}
+
+// Uint64 is a replacement for atomic.Uint64.
+type Uint64 struct{ v atomic.Uint64 }
+
+func (x *Uint64) Load() uint64 { before(x); return x.v.Load() }
+
+func (x *Uint64) Store(val uint64) { before(x); x.v.Store(val) }
+
+func (x *Uint64) Swap(new uint64) uint64 { before(x); return x.v.Swap(new) }
+
+func (x *Uint64) Add(delta uint64) uint64 { before(x); return x.v.Add(delta) }
+
+func (x *Uint64) CompareAndSwap(old, new uint64) bool {
+	before(x)
+	return x.v.CompareAndSwap(old, new)
+}
+
+// Uint32 is a replacement for atomic.Uint32.
+type Uint32 struct{ v atomic.Uint32 }
+
+func (x *Uint32) Load() uint32 { before(x); return x.v.Load() }
+
+func (x *Uint32) Store(val uint32) { before(x); x.v.Store(val) }
+
+func (x *Uint32) Swap(new uint32) uint32 { before(x); return x.v.Swap(new) }
+
+func (x *Uint32) Add(delta uint32) uint32 { before(x); return x.v.Add(delta) }
+
+func (x *Uint32) CompareAndSwap(old, new uint32) bool {
+	before(x)
+	return x.v.CompareAndSwap(old, new)
+}
+
+// Int64 is a replacement for atomic.Int64.
+type Int64 struct{ v atomic.Int64 }
+
+func (x *Int64) Load() int64 { before(x); return x.v.Load() }
+
+func (x *Int64) Store(val int64) { before(x); x.v.Store(val) }
+
+func (x *Int64) Swap(new int64) int64 { before(x); return x.v.Swap(new) }
+
+func (x *Int64) Add(delta int64) int64 { before(x); return x.v.Add(delta) }
+
+func (x *Int64) CompareAndSwap(old, new int64) bool {
+	before(x)
+	return x.v.CompareAndSwap(old, new)
+}
+
+// Int32 is a replacement for atomic.Int32.
+type Int32 struct{ v atomic.Int32 }
+
+func (x *Int32) Load() int32 { before(x); return x.v.Load() }
+
+func (x *Int32) Store(val int32) { before(x); x.v.Store(val) }
+
+func (x *Int32) Swap(new int32) int32 { before(x); return x.v.Swap(new) }
+
+func (x *Int32) Add(delta int32) int32 { before(x); return x.v.Add(delta) }
+
+func (x *Int32) CompareAndSwap(old, new int32) bool {
+	before(x)
+	return x.v.CompareAndSwap(old, new)
+}
+
+// Bool is a replacement for atomic.Bool.
+type Bool struct{ v atomic.Bool }
+
+func (x *Bool) Load() bool { before(x); return x.v.Load() }
+
+func (x *Bool) Store(val bool) { before(x); x.v.Store(val) }
+
+func (x *Bool) Swap(new bool) bool { before(x); return x.v.Swap(new) }
+
+func (x *Bool) CompareAndSwap(old, new bool) bool {
+	before(x)
+	return x.v.CompareAndSwap(old, new)
+}
